@@ -81,7 +81,7 @@ def run_injected(c, m, sims, target, Z=None, opts=(False, False)):
         seen.append(line.index)
         if target is not None and line.index == target:
             for p in range(s.mdim):
-                for b in range(nbytes): view[p, b] = inj[(p, b)]
+                for b in range(nbytes): view[p, b] = lanes.LV(inj[(p, b)])
     s.s_to_c(); s.c_prop(cb); s.c_to_s()
     s.s = lanes.norm(s.s)
     return s, ins, inj, seen
@@ -111,21 +111,20 @@ def concrete(recipe, m, sims, target, in_bytes, inj_bytes, opts=(False, False)):
     return bad
 
 
-def check_item(item):
+def _check_item_path(item, rep, eng):
     recipe, m, ch, opts = item
-    rep = common.Report()
     name = recipe[1]['name']
     sims = 3
     try:
         probs, ncalls = trace_check(recipe, m, opts) if ch == 0 else ([], 0)
     except Exception as e:
         rep.violation('callback-arguments', f'{name} m={m} options {opts}: c_prop(inject_cb) raised {type(e).__name__}: {e}', {'recipe': recipe, 'm': m, 'mode': 'trace', 'opts': list(opts)})
-        return rep
+        return
     rep.counts['trace_runs'] += (ch == 0)
     rep.counts['callback_calls'] += ncalls
     if probs:
         rep.violation('callback-arguments', f'{name} m={m} options (c_reuse, strip_forks)={opts}: {probs[0]}', {'recipe': recipe, 'm': m, 'mode': 'trace', 'opts': list(opts)})
-        return rep
+        return
     c = netlist.from_recipe(recipe)
     targets = ([None] + [l.index for l in c.lines])[ch:ch + 10]
     # reference run without any callback (for "untouched changes nothing")
@@ -157,7 +156,7 @@ def check_item(item):
                     bad.append((_bad_lanes(m, alg, out, sp, lanes.ONES) & mask) != 0)
         if not bad: continue
         rep.counts['obligations'] += len(bad)
-        q = lanes.Q(rep)
+        q = lanes.Q(rep, eng=eng)
         r = q.check(z3.Or(bad))
         if r == z3.unsat:
             rep.counts['discharged'] += len(bad)
@@ -174,8 +173,13 @@ def check_item(item):
             break
         else:
             rep.error(f'{name} m={m}: solver unknown')
-    return rep
+    return
 
+
+def check_item(item):
+    rep = common.Report()
+    lanes.explore(lambda eng: _check_item_path(item, rep, eng), rep)
+    return rep
 
 def replay(data):
     if data['mode'] == 'trace':
